@@ -356,6 +356,8 @@ where
                                 dynamic_props.insert("textContent".into());
                             }
                             Directive::VModel(directive) => {
+                                // hygienic, so that it can't capture a user's `$event`
+                                let event = private_ident!("$event");
                                 if is_component {
                                     props.push(PropOrSpread::Prop(Box::new(Prop::KeyValue(
                                         KeyValueProp {
@@ -454,7 +456,7 @@ where
                                         value: Box::new(Expr::Arrow(ArrowExpr {
                                             span: DUMMY_SP,
                                             params: vec![Pat::Ident(BindingIdent {
-                                                id: quote_ident!("$event").into(),
+                                                id: event.clone(),
                                                 type_ann: None,
                                             })],
                                             body: Box::new(BlockStmtOrExpr::Expr(Box::new(
@@ -467,9 +469,7 @@ where
                                                             expr: Box::new(directive.value),
                                                         }),
                                                     ),
-                                                    right: Box::new(Expr::Ident(
-                                                        quote_ident!("$event").into(),
-                                                    )),
+                                                    right: Box::new(Expr::Ident(event)),
                                                 }),
                                             ))),
                                             is_async: false,
